@@ -17,6 +17,23 @@ class Finding:
                 'detail': self.detail}
 
 
+class View:
+    """a rule-renaming view of a Ctx: lets one property run another property's rule function under its own rule ids
+    (C01 runs C11's palette decoder rules as its L2).  Everything else is the underlying context."""
+    def __init__(self, ctx, rename):
+        object.__setattr__(self, '_ctx', ctx)
+        object.__setattr__(self, '_rename', rename)
+
+    def __getattr__(self, name):
+        return getattr(self._ctx, name)
+
+    def __setattr__(self, name, value):
+        setattr(self._ctx, name, value)
+
+    def inst(self, rule, subject, ok, what, span=None, nontrivial=True, detail=None, key=None):
+        return self._ctx.inst(self._rename.get(rule, rule), subject, ok, what, span, nontrivial, detail, key)
+
+
 class Ctx:
     def __init__(self, prop, fx, tier='quick', fx_utils=None):
         self.prop = prop
